@@ -193,7 +193,7 @@ func checkC15(c *Ctx) {
 					continue
 				}
 				n++
-				if _, fresh := st.Val.(*ssa.MakeSlice); !fresh {
+				if !freshByteSlice(st.Val) {
 					ok = false
 					pos = p.Pos(instrPos(in))
 				}
@@ -279,19 +279,61 @@ func checkC15(c *Ctx) {
 			}
 			// returned value and cached copy come from Sum
 			sumCall := sum.(*ssa.Call)
+			// "comes from Sum": the Sum result itself, a fresh slice that received a copy of it
+			// (copy(dst, x) / append(fresh, x...)), or a phi of such — a refactoring that returns
+			// the copy instead of the original keeps the verdict
+			var fromSum func(v ssa.Value, d int) bool
+			fromSum = func(v ssa.Value, d int) bool {
+				if d > 6 || v == nil {
+					return false
+				}
+				v = stripConv(v)
+				if v == ssa.Value(sumCall) {
+					return true
+				}
+				switch x := v.(type) {
+				case *ssa.Phi:
+					for _, e := range x.Edges {
+						if !fromSum(e, d+1) {
+							return false
+						}
+					}
+					return len(x.Edges) > 0
+				case *ssa.Slice:
+					return fromSum(x.X, d+1)
+				case *ssa.Call:
+					if bi, ok := x.Call.Value.(*ssa.Builtin); ok && bi.Name() == "append" && len(x.Call.Args) == 2 {
+						return fromSum(x.Call.Args[1], d+1)
+					}
+				case *ssa.MakeSlice:
+					// a fresh buffer filled by copy(buf, <from Sum>)
+					if x.Referrers() != nil {
+						for _, r := range *x.Referrers() {
+							if cc, ok := r.(*ssa.Call); ok {
+								if bi, ok := cc.Call.Value.(*ssa.Builtin); ok && bi.Name() == "copy" && stripConv(cc.Call.Args[0]) == ssa.Value(x) && fromSum(cc.Call.Args[1], d+1) {
+									return true
+								}
+							}
+						}
+					}
+				}
+				return false
+			}
 			retOK, copyOK := false, false
 			for _, a := range mustAccept(fn) {
-				v := retValue(a.ret, 0)
-				if v == ssa.Value(sumCall) {
+				if fromSum(retValue(a.ret, 0), 0) {
 					retOK = true
 				}
 			}
 			for _, b := range fn.Blocks {
 				for _, in := range b.Instrs {
 					if call, ok := in.(*ssa.Call); ok {
-						if bi, ok := call.Call.Value.(*ssa.Builtin); ok && bi.Name() == "copy" && call.Call.Args[1] == ssa.Value(sumCall) && derivedFrom(call.Call.Args[0], recv, ch+"."+fVal) {
+						if bi, ok := call.Call.Value.(*ssa.Builtin); ok && bi.Name() == "copy" && fromSum(call.Call.Args[1], 0) && derivedFrom(call.Call.Args[0], recv, ch+"."+fVal) {
 							copyOK = true
 						}
+					}
+					if st, ok := in.(*ssa.Store); ok && derivedFrom(st.Addr, recv, ch+"."+fVal) && fromSum(st.Val, 0) && stripConv(st.Val) != ssa.Value(sumCall) {
+						copyOK = true // value = append([]byte(nil), res...) / a filled fresh buffer
 					}
 				}
 			}
@@ -433,4 +475,27 @@ func challengeValueAddr(addr ssa.Value, fVal string) bool {
 	}
 	_, isAlloc := fa.X.(*ssa.Alloc)
 	return isAlloc
+}
+
+// freshByteSlice: a slice that shares storage with nothing else: make(...), or
+// append(nil / empty-capacity slice, ...).
+func freshByteSlice(v ssa.Value) bool {
+	v = stripConv(v)
+	switch x := v.(type) {
+	case *ssa.MakeSlice:
+		return true
+	case *ssa.Call:
+		if bi, ok := x.Call.Value.(*ssa.Builtin); ok && bi.Name() == "append" && len(x.Call.Args) >= 1 {
+			base := stripConv(x.Call.Args[0])
+			if isNilConst(base) {
+				return true
+			}
+			if sl, ok := base.(*ssa.Slice); ok && sl.Max != nil {
+				if k, ok := constInt(sl.Max); ok && k == 0 {
+					return true // x[:0:0]
+				}
+			}
+		}
+	}
+	return false
 }
